@@ -73,6 +73,17 @@ theorem fall_table_exact (labels : List String) (statsList : List (Stats V))
           some ⟨labels.getD v "", v, kv.1, x, i⟩ := by
   first | (apply Snow.FramesProps.fall_table_exact <;> assumption) | (apply @Snow.FramesProps.fall_table_exact V <;> assumption)
 
+/-- whatever table was cached before (any history of runs and exports), after
+`run()` the table is the one of the stats of THAT run … -/
+theorem table_after_run (labels : List String) (f : Fall V) (newStats : List (Stats V)) :
+    (Fall.toFrame labels (f.run newStats)).1 = fallTable labels newStats := by
+  first | (apply Snow.FramesProps.table_after_run <;> assumption) | (apply @Snow.FramesProps.table_after_run V <;> assumption)
+
+/-- … and asking again returns the same table (from the cache) -/
+theorem table_cached (labels : List String) (f : Fall V) (newStats : List (Stats V)) :
+    (Fall.toFrame labels (Fall.toFrame labels (f.run newStats)).2).1 = fallTable labels newStats := by
+  first | (apply Snow.FramesProps.table_cached <;> assumption) | (apply @Snow.FramesProps.table_cached V <;> assumption)
+
 /-- **accessors_exact**: `nucleationTimes / nucleationTemperatures /
 solidificationTimes (group, seed)` return exactly the values
 `stats[i][key][v]` for the requested seeds `i`, the accessor's key and the vials `v`
